@@ -58,7 +58,7 @@ def _decide(agent, markets):
     if t < win[0] or t > win[1]:
         return []
     out = []
-    for j in range(menu.get("max_orders", 1)):
+    for j in range((per_agent or {}).get("max_orders", menu.get("max_orders", 1))):
         tag = f"a{aid}k{k}j{j}"
         act = acts[g.choice(f"{tag}_act", len(acts))]
         if act == "none":
@@ -81,7 +81,12 @@ def _decide(agent, markets):
         ttl = ttls[g.choice(f"{tag}_ttl", len(ttls))] if len(ttls) > 1 else ttls[0]
         if ttl == "sym":
             ttl = g.int(f"{tag}_ttlv", 1, 3)
-        v = menu["vol_fixed"] if "vol_fixed" in menu else g.int(f"{tag}_v", 1, menu.get("vol_hi", VOL_HI))
+        if "vol_fixed" in (per_agent or {}):
+            v = per_agent["vol_fixed"]
+        elif "vol_hi" in (per_agent or {}):
+            v = g.int(f"{tag}_v", 1, per_agent["vol_hi"])
+        else:
+            v = menu["vol_fixed"] if "vol_fixed" in menu else g.int(f"{tag}_v", 1, menu.get("vol_hi", VOL_HI))
         if act == "market":
             o = Order(agent_id=aid, market_id=m.market_id, is_buy=is_buy, kind=MARKET_ORDER, volume=v, ttl=ttl)
         else:
